@@ -63,16 +63,17 @@ def install_transition_probe():
         return
     _orig_transition = PipelineRuntimeStatus.transition
 
-    def transition(self, operator, new_state):
+    def transition(self, operator, new_state, *args, **kwargs):
+        # extra (optional) arguments of a later version are passed through untouched
         log = TransitionLog.active
         if log is None:
-            return _orig_transition(self, operator, new_state)
+            return _orig_transition(self, operator, new_state, *args, **kwargs)
         old = self.operator_states.get(operator)
         before = None
         if log.listeners:
             before = (dict(self.operator_states), dict(self.state_counts))
         try:
-            r = _orig_transition(self, operator, new_state)
+            r = _orig_transition(self, operator, new_state, *args, **kwargs)
         except BaseException as e:
             ev = (len(log.events), operator, old.value if old else None, new_state.value, False, str(e))
             log.events.append(ev)
